@@ -108,6 +108,63 @@ Definition merges_at (text : str) (p : nat) : bool :=
   | _, _ => false
   end.
 
+(* ------------------------------------------------------------------ *)
+(** * Token level: the tokens the parser takes, and in which position
+
+   [tokens t line]: the tokens consumed (not replaced) while the text is read
+   with the alias table [t], each with the parser position it is taken in, its
+   class and its characters (line continuations removed).  The claim "the
+   commands are those of the substituted text" at the level of the model:
+   [tokens t line = tokens [] (the hand-substituted text)], outside the
+   token-versus-text boundary ([merges_at]).  It is evaluated on every case
+   that was parsed completely (verdict 10 if it fails); it is not proved. *)
+Scheme Equality for keyword.
+Scheme Equality for oper.
+Scheme Equality for tkind.
+Scheme Equality for pstate.
+
+Definition tok_entry : Type := (pstate * tkind * str)%type.
+
+Definition entry_eqb (a b : tok_entry) : bool :=
+  let '(p1, k1, s1) := a in let '(p2, k2, s2) := b in
+  pstate_beq p1 p2 && tkind_beq k1 k2 && str_eqb s1 s2.
+
+Fixpoint unmarked (marks : list bool) (l : list N) : str :=
+  match marks, l with
+  | m :: marks', c :: l' => if m then unmarked marks' l' else c :: unmarked marks' l'
+  | _, _ => []
+  end.
+
+(* the token the next step consumes, if it consumes one *)
+Definition consumed_token (t : table) (s : sstate) : option tok_entry :=
+  let inp := flat (s_stack s) (s_base s) in
+  match lex inp with
+  | inl lx =>
+      let e := (s_ps s, lx_kind lx, unmarked (lx_tok lx) (skipn (length (lx_gap lx)) inp)) in
+      match decide_lx (s_ps s) lx with
+      | ATry cmd _ =>
+          match eligible t (read (lx_gap lx) s) (lx_lit lx) cmd with
+          | Some _ => None
+          | None => Some e
+          end
+      | ATake _ => Some e
+      | _ => None
+      end
+  | inr _ => None
+  end.
+
+Definition sstep_tok (t : table) (sp : sstate * list tok_entry)
+  : outcome (sstate * list tok_entry) (list tok_entry) :=
+  let '(s, acc) := sp in
+  match sstep t s with
+  | Cont s' => Cont (s', match consumed_token t s with Some e => e :: acc | None => acc end)
+  | Fin _ => Fin (rev acc)
+  | Outside => Outside
+  end.
+
+Definition tokens (t : table) (line : str) : result (list tok_entry) :=
+  run (sstep_tok t) (fuel_of t line) (s_init line, []).
+
 (* the oracle: boolean clauses evaluated on the implementation's output only *)
 Definition run_case (c : case) : verdict :=
   let '(tl, line, io) := c in
@@ -140,6 +197,11 @@ Definition run_case (c : case) : verdict :=
             else if textual && negb (if status =? 0 then str_eqb (fst trees) (snd trees)
                                      else line_prefix (fst trees) (snd trees)) then 5
             else if textual && negb (str_eqb (fst traces) (snd traces)) then 7
+            else if (status =? 0) && textual &&
+                    negb (match tokens t line, tokens [] (text_of sbuf) with
+                          | RFin a, RFin b => list_eqb entry_eqb a b
+                          | _, _ => false
+                          end) then 10
             else
               match (if status =? 0 then model_run t line
                      else run (mstep_upto t lexed) (fuel_of t line) (m_init line)) with
